@@ -237,6 +237,54 @@ def r5(ctx, prog):
     ctx.floor(R, 6)
 
 
+def r6(ctx, prog):
+    R = ctx.rule("C14.R6", "the free path's sanity checks reject no valid range: a range that ends in the arena's last block passes every `field_count <= mi_bitmap_index_field(..)` "
+                           "test (a rejected free returns early and leaves the blocks claimed for ever); witnesses: last bit of field k, 1..3 blocks, evaluated with the analyser's evaluator")
+    from absint import Interp, AV, Split, Unsupported, AssertionMayFail
+    g = prog.fn("_mi_arena_free")
+    bc = [dd["d"] for _, dd in rl.var_init_from(g, lambda j: rl.is_call(g, j, "mi_block_count_of_size"))]
+    idx = None
+    for c in g.calls("mi_arena_memid_indices"):
+        a = g.strip(g.nodes[c]["args"][-1])
+        if g.nodes[a]["k"] == "UnaryOperator" and g.nodes[a]["op"] == "&":
+            idx = rl.var_of(g, g.nodes[a]["c"][0])
+    if not bc or idx is None:
+        ctx.broke("C14.R6: block count / bitmap index locals of _mi_arena_free not found")
+        return
+    bits = prog.const("MI_BITMAP_FIELD_BITS")
+    it = Interp(prog)
+    n = 0
+    seen = set()
+    for p_, q, e, pol in rl.edges_with_fact(g, lambda e, pol: isinstance(e, int) and rl.oriented(g, e, pol, rl.is_field(g, "field_count"), lambda j: g.mentions_call(j, "mi_bitmap_index_field")) is not None):
+        c = rl.oriented(g, e, pol, rl.is_field(g, "field_count"), lambda j: g.mentions_call(j, "mi_bitmap_index_field"))
+        if c[0] not in ("<=", "<") or not rl.can_reach_call(g, q, lambda m: m.get("callee") == "_mi_error_message") or (e, pol) in seen:
+            continue
+        seen.add((e, pol))
+        n += 1
+        bad = None
+        for k in (0, 1, 5):
+            for nb in (1, 2, 3):
+                # the range [64k + 64 - nb, 64k + 64) lies entirely in field k: an arena with k+1 fields must accept it
+                try:
+                    v = it.eval(g, c[2], {idx: AV(bits * k + bits - nb), bc[0]: AV(nb)}, 0).const()
+                except (Split, Unsupported, AssertionMayFail):
+                    v = None
+                if v is None:
+                    continue
+                rejected = (k + 1 <= v) if c[0] == "<=" else (k + 1 < v)
+                if rejected:
+                    bad = (k, nb, v)
+                    break
+            if bad:
+                break
+        ctx.check(R, bad is None, g.where(e), "`%s` accepts a range that ends with the arena's last block" % g.text(e)[:90] if bad is None else
+                  "`%s` rejects a valid free: %d block(s) ending at the last bit of field %d give field index %d, so an arena with %d field(s) refuses to release them"
+                  % (g.text(e)[:90], bad[1], bad[0], bad[2], bad[0] + 1), key="C14.R6:accept", witness=list(bad) if bad else None)
+    if n == 0:
+        ctx.broke("C14.R6: no field_count sanity check found in _mi_arena_free")
+    ctx.floor(R, 1)
+
+
 def run(ctx):
     ctx.explanation = ("Static decision of C14's code-shaped necessary conditions: refresh and observed-clear conditions of every claiming CAS in bitmap.c, the roll-back region of the "
                        "multi-field claim (all failure edges go through it; conditional undo of the initial field; bounded retry), agreement of count/index between claim and "
@@ -244,7 +292,7 @@ def run(ctx):
     for c in (["REL"] if ctx.tier == "quick" else ["REL", "SEC", "DBG"]):
         prog = ctx.prog(c)
         n0 = len(ctx.instances)
-        r1(ctx, prog); r2(ctx, prog); r3(ctx, prog); r4(ctx, prog); r5(ctx, prog)
+        r1(ctx, prog); r2(ctx, prog); r3(ctx, prog); r4(ctx, prog); r5(ctx, prog); r6(ctx, prog)
         if c != "REL":
             for i in ctx.instances[n0:]:
                 i["site"] += " [%s]" % c
